@@ -1,5 +1,6 @@
 import Driver.Common
 import Model.Jwk
+import Model.KeyObject
 namespace Driver.C16
 open Lean Driver Model Model.Jwk
 
@@ -18,8 +19,45 @@ def tokensOf (j : Json) : Except String Tokens := do
   (← getArr j "tokens").toList.mapM fun p => do
     pure ((← (← p.getArrVal? 0).getStr?), (← (← p.getArrVal? 1).getStr?))
 
+def pairsOf (j : Json) (key : String) : Except String Tokens := do
+  (← getArr j key).toList.mapM fun p => do
+    pure ((← (← p.getArrVal? 0).getStr?), (← (← p.getArrVal? 1).getStr?))
+
+open Model.KeyObject in
+def handleKeyHist (j : Json) : Except String Json := do
+  let (pf, _) := fieldsOf (← getStr j "kind")
+  let k : Kind := { kty := ← getStr j "kty", publicFields := pf, allowedParams := Generated.Jose.allowedParams }
+  let m : Mat := { pub := ← pairsOf j "pub", priv := ← pairsOf j "priv" }
+  let options ← pairsOf j "options"
+  let s0 : St ← match ← getStr j "init" with
+    | "private-object" => pure (ofPrivateObject options)
+    | "public-object" => pure (ofPublicObject options)
+    | "private-dict" => pure (ofDict (← pairsOf j "raw") options)
+    | "public-dict" => pure (ofDict (← pairsOf j "raw") options)
+    | x => throw s!"init {x}"
+  let ops ← (← getArr j "calls").toList.mapM fun c => do
+    match ← c.getStr? with
+    | "private" => pure (Op.asDict true) | "public" => pure (Op.asDict false)
+    | "private-json" => pure (Op.asDict true) | "public-json" => pure (Op.asDict false)
+    | "private-pem" => pure (Op.asBytes true) | "public-pem" => pure (Op.asBytes false)
+    | "private-der" => pure (Op.asBytes true) | "public-der" => pure (Op.asBytes false)
+    | "thumbprint" => pure Op.thumbprint | "public-key" => pure Op.getPublicKey
+    | x => throw s!"call {x}"
+  let (s, outs) := run k m (← getStr j "thumb") s0 ops
+  let js := outs.map fun o => match o with
+    | .members t =>
+      let sorted := t.toArray.qsort (fun a b => a.1 < b.1)
+      Json.arr (sorted.map fun (k, v) => Json.arr #[Json.str k, Json.str v])
+    | .bytes true => Json.str "private-bytes"
+    | .bytes false => Json.str "public-bytes"
+    | .valueError => Json.str "ValueError"
+    | .done => Json.str "done"
+  pure (Json.mkObj [("exports", Json.arr js.toArray),
+                    ("state", Json.mkObj [("private_key", Json.bool s.privObj), ("public_key", Json.bool s.pubObj), ("dict_loaded", Json.bool (!s.dict.isEmpty))])])
+
 def handle : Handler := fun j => do
   match (← getStr j "op") with
+  | "key_hist" => handleKeyHist j
   | "int_b64" => pure (Json.mkObj [("out", toHex (intToBase64 (← natOf j "n")))])
   | "b64_int" =>
     match base64ToInt (← getHex j "s") with
